@@ -27,6 +27,11 @@ def emit_offset(rows, out, off):
             w('SA(%d, "pair<T,ntr>", amc::is_trivially_relocatable<std::pair<vs::S<4,4,3>, %s> >::value == %s);\n' % (i, T, b(r['pairWithNTR'])))
             w('SA(%d, "vector<T> relocatable", amc::is_trivially_relocatable<amc::vector<%s> >::value == %s);\n' % (i, T, b(r['vecTR'])))
             w('SA(%d, "vector<T> noexcept move", std::is_nothrow_move_constructible<amc::vector<%s> >::value && std::is_nothrow_move_assignable<amc::vector<%s> >::value);\n' % (i, T, T))
+        if N == 0:
+            F0 = 'amc::FixedCapacityVector<%s,0ULL>' % T
+            w('SA(%d, "FixedCapacityVector<T,0> trivially destructible", std::is_trivially_destructible<%s >::value == %s);\n' % (i, F0, b(r['fcvTrivDtor'])))
+            w('SA(%d, "FixedCapacityVector<T,0> size_type", sizeof(%s::size_type) == %d && std::is_unsigned<%s::size_type>::value);\n' % (i, F0, r['fcvSizeTypeBytes'], F0))
+            w('SA(%d, "FixedCapacityVector<T,0> relocatable", amc::is_trivially_relocatable<%s >::value == %s);\n' % (i, F0, b(r['fcvTR'])))
         if N >= 1:
             F = 'amc::FixedCapacityVector<%s,%dULL>' % (T, N)
             w('SA(%d, "FixedCapacityVector trivially destructible", std::is_trivially_destructible<%s >::value == %s);\n' % (i, F, b(r['fcvTrivDtor'])))
